@@ -11,12 +11,14 @@ Property theorems only.  Sizes are the property's literal 1 MiB = 1048576, nonce
 the length field 4 bytes big-endian; keys are 32 bytes.
 
 What is *not* here (why the property is claimed partial): that the kernel delivers the TCP byte
-stream unaltered and in order, that there is one reader thread per session and that two threads
-never interleave the bytes of two `send`s to one peer (a scheduling matter, C36), and that
+stream unaltered and in order, that there is one reader thread per session, and that
 `std::random_device` yields a fresh nonce — the theorems hold for every nonce, freshness is only
-tested (pairwise distinctness over a run) by the harness.
+tested (pairwise distinctness over a run) by the harness.  Concurrent senders *are* here: the
+`Senders` machine (several threads, frames written in pieces chosen by the kernel, arbitrary
+schedule, the per-session send lock) with `concurrent_locked` and the counterexample without the lock.
 -/
 import EphVerif.Lemmas.C14Spec
+import EphVerif.Lemmas.C14Senders
 
 namespace EphVerif.C14
 open EphVerif EphVerif.Frames EphVerif.Gen
@@ -26,7 +28,8 @@ open EphVerif EphVerif.Frames EphVerif.Gen
 theorem generated_constants :
     C14.kMaxPayloadSize = 1048576 ∧ C14.kNonceSize = 12 ∧ C14.kLengthFieldSize = 4 ∧
     C14.sendShifts = [24, 16, 8, 0] ∧ C14.recvShifts = [24, 16, 8, 0] ∧
-    C14.sendCounter = 0 ∧ C14.recvCounter = 0 ∧ C14.recvCheckBeforeBody = true := by decide
+    C14.sendCounter = 0 ∧ C14.recvCounter = 0 ∧ C14.recvCheckBeforeBody = true ∧
+    C14.sendHoldsSessionLock = true := by decide
 
 /-- every size guard of the transport refuses exactly the sizes above 1 MiB -/
 theorem generated_guards (n : Nat) :
@@ -191,6 +194,95 @@ theorem ended_is_final (key : Bytes) (chunks more : List Bytes) (h : (feedChunks
     feedChunks key Reader.init (chunks ++ more) = feedChunks key Reader.init chunks := by
   simp only [feedChunks_eq, List.flatten_append, feed_append] at h ⊢
   exact feed_ended key _ _ h
+
+/-! ## several threads sending to one session -/
+
+/-- **C14.concurrent_locked.** With the per-session send lock — for every number `n` of sender threads,
+every list of `send()` calls per thread (payloads of at most 1 MiB, any 12-byte nonces), every way the
+kernel cuts each frame into pieces, every schedule that lets all threads finish, and every way the
+resulting byte stream is cut on its way to the reader: the session stays up; the handler receives the
+payloads of an interleaving `order` of the threads' calls — hence every payload of every thread
+exactly once, byte for byte (`Perm`), and each thread's payloads in that thread's send order
+(`Sublist`). -/
+theorem concurrent_locked (key : Bytes) (n : Nat) (calls : Nat → List SendCall) (sched : List Nat) (chunks : List Bytes)
+    (hk : key.length = 32) (hsup : ∀ i, n ≤ i → calls i = [])
+    (hcalls : ∀ i, ∀ c ∈ calls i, c.wellSplit key ∧ c.nonce.length = 12 ∧ c.payload.length ≤ 1048576)
+    (hdone : (Senders.run true (Senders.init calls) sched).Done)
+    (hchunks : chunks.flatten = (Senders.run true (Senders.init calls) sched).wire) :
+    let r := feedChunks key Reader.init chunks
+    r.ended = none ∧
+    (∃ order : List SendCall, Merge calls order ∧ r.delivered = order.map (·.payload)) ∧
+    (∀ i, ((calls i).map (·.payload)).Sublist r.delivered) ∧
+    r.delivered.Perm (((List.range n).flatMap calls).map (·.payload)) := by
+  obtain ⟨order, hm, hw⟩ := run_locked calls sched hdone
+  have hord : ∀ c ∈ order, c.wellSplit key ∧ c.nonce.length = 12 ∧ c.payload.length ≤ 1048576 := by
+    intro c hc
+    obtain ⟨i, hi⟩ := hm.mem c hc
+    exact hcalls i c hi
+  have hwire : (order.map fun c => c.pieces.flatten).flatten
+      = (order.map fun c => (c.nonce, c.payload)).flatMap fun f => encodeFrame key f.1 f.2 := by
+    rw [List.flatMap_def, List.map_map]
+    congr 1
+    apply List.map_congr_left
+    intro c hc
+    exact (hord c hc).1
+  have hs := stream key (order.map fun c => (c.nonce, c.payload)) chunks hk
+    (by intro f hf; obtain ⟨c, hc, rfl⟩ := List.mem_map.mp hf; exact (hord c hc).2.1)
+    (by intro f hf; obtain ⟨c, hc, rfl⟩ := List.mem_map.mp hf; exact (hord c hc).2.2)
+    (by rw [hchunks, hw, hwire])
+  have hd : (feedChunks key Reader.init chunks).delivered = order.map (·.payload) := by
+    rw [hs.1, List.map_map]; rfl
+  refine ⟨hs.2.1, ⟨order, hm, hd⟩, ?_, ?_⟩
+  · intro i; rw [hd]; exact (hm.sublist i).map _
+  · rw [hd]; exact (hm.perm n hsup).map _
+
+/-- the same for the code as it is: `send()` holds the session's send lock (regenerated flag) -/
+theorem concurrent_as_coded (key : Bytes) (n : Nat) (calls : Nat → List SendCall) (sched : List Nat) (chunks : List Bytes)
+    (hk : key.length = 32) (hsup : ∀ i, n ≤ i → calls i = [])
+    (hcalls : ∀ i, ∀ c ∈ calls i, c.wellSplit key ∧ c.nonce.length = 12 ∧ c.payload.length ≤ 1048576)
+    (hdone : (Senders.runAsCoded (Senders.init calls) sched).Done)
+    (hchunks : chunks.flatten = (Senders.runAsCoded (Senders.init calls) sched).wire) :
+    let r := feedChunks key Reader.init chunks
+    r.ended = none ∧ (∀ i, ((calls i).map (·.payload)).Sublist r.delivered) ∧
+    r.delivered.Perm (((List.range n).flatMap calls).map (·.payload)) := by
+  have hflag : C14.sendHoldsSessionLock = true := by decide
+  unfold Senders.runAsCoded at hdone hchunks
+  rw [hflag] at hdone hchunks
+  have := concurrent_locked key n calls sched chunks hk hsup hcalls hdone hchunks
+  exact ⟨this.1, this.2.2.1, this.2.2.2⟩
+
+/-! ### the witness: two threads, one 4-byte payload each, every frame taken by the kernel in two pieces
+(13 bytes, then the rest) -/
+
+def cexKey : Bytes := List.replicate 32 0
+def cexCall (nonceByte : UInt8) (payload : Bytes) : SendCall :=
+  let f := encodeFrame cexKey (List.replicate 12 nonceByte) payload
+  { nonce := List.replicate 12 nonceByte, payload := payload, pieces := [f.take 13, f.drop 13] }
+def cexCalls : Nat → List SendCall
+  | 0 => [cexCall 0x01 [1, 2, 3, 4]]
+  | 1 => [cexCall 0xff [5, 6, 7, 8]]
+  | _ => []
+
+/-- the hypotheses of `concurrent_locked` are satisfiable, and under the lock the alternating schedule
+delivers both payloads -/
+theorem concurrent_locked_witness :
+    let s := Senders.run true (Senders.init cexCalls) [0, 1, 0, 1, 0, 1, 1, 1]
+    (∀ i, i < 2 → s.todo i = [] ∧ s.cur i = []) ∧
+    (∀ i, i < 2 → ∀ c ∈ cexCalls i, c.wellSplit cexKey ∧ c.nonce.length = 12 ∧ c.payload.length ≤ 1048576) ∧
+    (feed cexKey Reader.init s.wire).delivered = [[1, 2, 3, 4], [5, 6, 7, 8]] ∧
+    (feed cexKey Reader.init s.wire).ended = none := by decide +kernel
+
+/-- **C14.concurrent_unlocked_counterexample.** Without the lock the same two `send()` calls, scheduled
+alternately (A starts, B starts, A writes 13 bytes, B writes 13 bytes, A finishes, B finishes), both
+complete — and the receiver reads the length field `00 ff ff ff` out of A's last header byte and B's
+nonce: it announces 16 777 215 bytes, the session is ended, and neither payload is ever delivered. -/
+theorem concurrent_unlocked_counterexample :
+    let s := Senders.run false (Senders.init cexCalls) [0, 1, 0, 1, 0, 1]
+    (∀ i, i < 2 → s.todo i = [] ∧ s.cur i = []) ∧
+    (∀ i, i < 2 → ∀ c ∈ cexCalls i, c.wellSplit cexKey ∧ c.nonce.length = 12 ∧ c.payload.length ≤ 1048576) ∧
+    s.wire.length = 40 ∧
+    (feed cexKey Reader.init s.wire).delivered = [] ∧
+    (feed cexKey Reader.init s.wire).ended = some (.oversized 16777215) := by decide +kernel
 
 /-! ## against the independent specification `EphVerif.Spec.Frames` -/
 
